@@ -441,7 +441,12 @@ def write_pairs(ctx, tag, tuples):
             path = os.path.join(ctx.dir, "pairs-%s-%d.ndjson" % (tag, n // CHUNK))
             paths.append(path)
             f = open(path, "w", encoding="utf-8")
-        f.write(json.dumps(t, ensure_ascii=False))
+        try:
+            line = json.dumps(t, ensure_ascii=False)
+            line.encode("utf-8")
+        except UnicodeEncodeError:
+            line = json.dumps(t, ensure_ascii=True)
+        f.write(line)
         f.write("\n")
         n += 1
     if f:
@@ -494,7 +499,8 @@ KW_CONTEXTS = {
     "mnem": ["%eval(1 {} 2)", "%if a {} b %then;", "%eval({} 1)", "%sysevalf(1 {} 2)", "a {} b", "%eval(a{} 2)",
              "%eval(1 {}2)"],
     "suffix": ["'a'{}", "\"a\"{}", "\"&v\"{}", "'1f'{}", "'a'{};"],
-    "hexnum": ["0{}x", "1{}", "%eval(0{}x+1)", "'{}'x", "\"{}\"x", "1{}5", ".5{}3", "1.5{}+3"],
+    "hexnum": ["0{}x", "1{}", "%eval(0{}x+1)", "'{}'x", "\"{}\"x", "1{}5", ".5{}3", "1.5{}+3", "%sysevalf(1{}-3)",
+               "%sysevalf(2.5{}+10 * .5{}-3)", "%sysfunc(f(1.5{}3))", "%eval(1{}5)", "%sysevalf(1{}5, int)", "%if 0{}x = 1{}1 %then;"],
     "datal": ["{};\n1 2\n;", ";{} ;\nab\n;", "x {};", "{}4;\na;b\n;;;;", "{}"],
 }
 
@@ -557,7 +563,9 @@ def run_c16(ctx):
     fam("hexnum", ["a", "f", "e", "abc", "ef", "x"], KW_CONTEXTS["hexnum"], None)
     fam("datal", ["datalines", "cards", "lines"], KW_CONTEXTS["datal"], None)
     # random mangling of everything else
-    base_inputs(ctx, soup_n=2500 if q else 40000, trunc_n=100 if q else 1000)
+    base_inputs(ctx, soup_n=2500 if q else 40000, trunc_n=100 if q else 1000, gen_n=1500 if q else 20000, cover_n=300 if q else 20000)
+    ctx.add_cases("num", gen.num_family(rng, 1200 if q else 20000, exhaustive_len=2))
+    ctx.add_cases("str", gen.string_family(rng, 800 if q else 10000))
     for c in list(ctx.cases.values()):
         v = gen.case_mangle(c["src"], rng)
         if v != c["src"]:
@@ -789,6 +797,7 @@ CONSTANTS
   FragSet = "%(fs)s"
   MaxFrags = 1000
   MaxStack = %(stack)d
+  MaxCalls = %(calls)d
   MaxWindow = %(window)d
   MaxSpec = 8
   MaxToksSinceCk = 4
@@ -799,11 +808,11 @@ CHECK_DEADLOCK FALSE
 DESIGN_INVS = "NoFault NoInternalError CkptDiscipline CkptBelowStack TokensOrdered LinesMatch PendNonEmpty DoneShape"
 
 
-def mc_run(workdir, name, fs, stack, window, emit, invs=DESIGN_INVS, progress=True, timeout=1800, workers=16):
+def mc_run(workdir, name, fs, stack, window, emit, invs=DESIGN_INVS, progress=True, timeout=1800, workers=16, calls=9):
     """One TLC run of spec/MC_SasLexer.tla.  Returns (stats, list of cover inputs)."""
     import re
     cfg = MC_CFG % dict(invs=invs + (" CoverAll" if emit else ""), props="PROPERTY Progress" if progress else "",
-                        fs=fs, stack=stack, window=window, emit="TRUE" if emit else "FALSE")
+                        fs=fs, stack=stack, window=window, calls=calls, emit="TRUE" if emit else "FALSE")
     rc, out, wall = common.tlc("MC_SasLexer", cfg, workdir, name, workers=workers, timeout=timeout, heap="16g")
     if "Model checking completed. No error has been found." not in out:
         m = re.search(r"(Invariant \w+ is violated|Temporal properties were violated|Error: .*)", out)
@@ -816,18 +825,26 @@ def mc_run(workdir, name, fs, stack, window, emit, invs=DESIGN_INVS, progress=Tr
             if m:
                 j = json.loads(json.loads(m.group(1)))
                 inputs.append("".join(CLASS_CHAR.get(k, c) if k else c for c, k in zip(j["cs"], j["cc"])))
-    return {"fragset": fs, "max_stack": stack, "window_fragments": window, "states": st["states"],
+    return {"fragset": fs, "max_stack": stack, "max_open_calls": calls, "window_fragments": window, "states": st["states"],
             "distinct": st["distinct"], "wall_s": round(wall, 1)}, inputs
 
 
-def build_cover(stack=8, window=2, log_fn=log):
+COVER_BOUNDS = {   # fragment set -> (max stack, max open calls, window in fragments)
+    "open": (8, 9, 3), "macrostat": (9, 1, 2), "call": (30, 1, 2), "eval": (30, 1, 2), "str": (30, 1, 2),
+}
+
+
+def build_cover(small=False, log_fn=log):
     """Generates the transition cover of every fragment set (used by setup.sh and, if missing, by the checks)."""
     os.makedirs(COVER_DIR, exist_ok=True)
     total = 0
     for fs in FRAGSETS:
-        st, inputs = mc_run(COVER_DIR, "cover-" + fs, fs, stack, window, True, invs="NoFault", progress=False)
+        stack, calls, window = COVER_BOUNDS[fs]
+        if small:
+            stack, window = min(stack, 7), 2
+        st, inputs = mc_run(COVER_DIR, "cover-" + fs, fs, stack, window, True, invs="NoFault", progress=False, calls=calls)
         with open(os.path.join(COVER_DIR, fs + ".ndjson"), "w", encoding="utf-8") as f:
-            for s_ in inputs:
+            for s_ in gen.dedup(inputs):
                 f.write(json.dumps(s_, ensure_ascii=False) + "\n")
         with open(os.path.join(COVER_DIR, fs + ".stats.json"), "w") as f:
             json.dump(st, f)
@@ -840,7 +857,7 @@ def cover_inputs(ctx, n_per_set=None):
     """Inputs of the transition cover (all, or a seeded sample per fragment set)."""
     if not all(os.path.exists(os.path.join(COVER_DIR, fs + ".ndjson")) for fs in FRAGSETS):
         log("[cover] not found, generating a smaller one")
-        build_cover(stack=7)
+        build_cover(small=True)
     out = []
     sizes = {}
     for fs in FRAGSETS:
@@ -1003,7 +1020,11 @@ def run_c20(ctx):
     import tempfile
     q = ctx.quick()
     pyrun = os.path.join(common.VERIF, "pyharness", "pyrun.py")
-    scratch = tempfile.mkdtemp(prefix="verif-c20-")
+    # a fixed path: the binding's build script bakes its manifest directory in at compile time, and cargo
+    # would re-run a stale build-script binary (pointing at a deleted copy) if the path changed between runs
+    scratch = "/tmp/verif-c20-scratch"
+    shutil.rmtree(scratch, ignore_errors=True)
+    os.makedirs(scratch)
     try:
         for item in ("Cargo.toml", "Cargo.lock", "crates", "src", "pyproject.toml"):
             srcp = os.path.join(common.REPO, item)
@@ -1012,6 +1033,8 @@ def run_c20(ctx):
                 shutil.copytree(srcp, dst, ignore=shutil.ignore_patterns("target"))
             else:
                 shutil.copy(srcp, dst)
+        for fn in ("crates/sas-lexer-py/build.rs", "crates/sas-lexer-py/src/lib.rs"):
+            os.utime(os.path.join(scratch, fn), None)
         t0 = time.time()
         p = subprocess.run([sys_python(), pyrun, "build", scratch, os.path.join(common.WORK, "target-py")],
                            stdout=subprocess.PIPE, stderr=subprocess.STDOUT, text=True)
@@ -1041,6 +1064,15 @@ def run_c20(ctx):
         pick_samples(ctx)
         cases = list(ctx.cases.values())
         must_ids = {c["id"] for c in cases if c["fam"] == "wellformed"}
+        # texts that exist only as Python str objects (lone surrogates, e.g. files read with surrogateescape):
+        # the native harness cannot express them; the Python side is judged alone, whenever it returns
+        sur = []
+        pool_s = [c["src"] for c in cases if 0 < len(c["src"]) < 200]
+        for k in range(300 if q else 5000):
+            s0 = ctx.rng.choice(pool_s)
+            i0 = ctx.rng.randint(0, len(s0))
+            sur.append({"id": "sur-%d" % k, "src": s0[:i0] + ctx.rng.choice(["\udce9", "\ud800", "\udfff\udc80"]) + s0[i0:],
+                        "pyonly": True, "fam": "surrogate"})
         # native view of the published crate
         env = dict(os.environ)
         env["CARGO_TARGET_DIR"] = os.path.join(common.WORK, "target-reg")
@@ -1068,6 +1100,18 @@ def run_c20(ctx):
                 if os.path.exists(f_):
                     os.remove(f_)
             ctx.evals += len(chunk)
+        # surrogate family: Python side only (JSON escapes keep the lone surrogates)
+        sin, sout = os.path.join(ctx.dir, "c20-sur-in.ndjson"), os.path.join(ctx.dir, "c20-sur-out.ndjson")
+        with open(sin, "w", encoding="ascii") as f_:
+            for c in sur:
+                f_.write(json.dumps(c, ensure_ascii=True) + "\n")
+        run_child_chunk(lambda i_, o_: [sys_python(), pyrun, "run", b["pkg"], os.path.join(common.REPO, "src/sas_lexer"), i_, o_],
+                        sur, sin, sout)
+        surview = {rec["id"]: rec for rec in common.read_ndjson(sout)} if os.path.exists(sout) else {}
+        ctx.extra["surrogate_inputs"] = len(sur)
+        ctx.extra["surrogate_inputs_returned"] = sum(1 for r in surview.values() if r.get("ok"))
+        for c in sur:
+            ctx.cases[c["id"]] = {"id": c["id"], "src": c["src"].encode("utf-8", "surrogatepass").decode("utf-8", "replace"), "fam": "surrogate"}
         returned = sum(1 for r in pyview.values() if r["ok"])
         ctx.extra["python_calls_returned"] = returned
         ctx.extra["python_calls_raised"] = len(pyview) - returned
@@ -1077,9 +1121,16 @@ def run_c20(ctx):
         for c in crashed:
             if c["id"] in must_ids:
                 ctx.violations.append(("C20_returns", c["id"], "the linked lexer crate did not return on a well-formed program", "py"))
-        pairs = ({"id": c["id"], "must_return": c["id"] in must_ids, "a": native[c["id"]], "b": pyview[c["id"]]}
-                 for c in cases if c["id"] in native and c["id"] in pyview and "cw" in native[c["id"]])
-        paths = write_pairs(ctx, "py", pairs)
+        def all_pairs():
+            for c in cases:
+                if c["id"] in native and c["id"] in pyview and "cw" in native[c["id"]]:
+                    yield {"id": c["id"], "must_return": c["id"] in must_ids, "native": True, "a": native[c["id"]], "b": pyview[c["id"]]}
+            for c in sur:
+                r_ = surview.get(c["id"])
+                if r_ and r_.get("ok") and "tbl" in r_:
+                    tbl = r_.pop("tbl")
+                    yield {"id": c["id"], "must_return": False, "native": False, "a": tbl, "b": r_}
+        paths = write_pairs(ctx, "py", all_pairs())
 
         def wtext(cid, clause, witness):
             rec = native.get(cid, {})
